@@ -50,6 +50,9 @@ impl State {
 //@use compile.fns State::context_close
 //@use compile.fns State::build_from_source
 //@use compile.fns State::build_from_file
+//@use compile.fns State::dict_insert
+//@use state.fns State::alloc_heap assumed
+//@use state.fns State::check_heap_limit assumed
 }
 
 // Rext: file system access (src/file.rs) is outside the verified code
@@ -73,6 +76,19 @@ fn verif_read_source_file(path: &Xstr) -> Xresult1<String> { unimplemented!() }
 //@use compile.fns ::endcase_word
 //@use compile.fns ::core_word_repeat
 //@use compile.fns ::core_word_loop
+//@use compile.fns ::build_global_variable
+//@use compile.fns ::core_word_def_begin_named
+//@use compile.fns ::core_word_nested_begin
+//@use compile.fns ::core_word_def_end
+
+// Rext: Xerr::control_flow_error(flow) formats the open construct into a message: some Err
+#[verifier::external_body] fn verif_control_flow_error() -> (r: Xresult) ensures r is Err { unimplemented!() }
+// R13: `Xstr::from(name.as_str())` (arcstr substring -> string): opaque
+#[verifier::external_body] fn verif_xstr_of(name: &Xsubstr) -> Xstr { unimplemented!() }
+impl Xerr {
+    #[verifier::external_body] pub fn conditional_var_definition() -> Xerr { unimplemented!() }
+    #[verifier::external_body] pub fn unbalanced_fn_builder() -> Xerr { unimplemented!() }
+}
 
 } // verus!
 fn main() {}
